@@ -30,14 +30,14 @@ fn zl<F: ark_ff::PrimeField>(v: &[F]) -> String {
 pub fn gen_and_run<G: AffineRepr>(curve: &str, ci: u64, modulus: &str, seed: u64, tier: &str) -> Vec<BatchOut> {
     type F<G> = <G as AffineRepr>::ScalarField;
     let mut rng = ChaChaRng::seed_from_u64(seed ^ (ci << 30) ^ 0xba7c);
-    let count = if tier == "thorough" { 64 } else { 16 };
+    let count = if tier == "thorough" { 66 } else { 22 };
     let cap = 8usize;
     let pc = PedersenGens::<G>::default();
     let bp = BulletproofGens::<G>::new(cap, 1);
     let mut outs = vec![];
     for b in 0..count {
-        let kind = b % 8; // 7 = the same proof verified against two statements whose constants deviate by +d / -d; 0 honest mix, 1 one invalid, 2 +d/-d pair, 3 empty, 4 single, 5 pair + honest around, 6 shape error inside
-        let k = match kind { 3 => 0, 4 => 1, 2 | 7 => 2, _ => rng.gen_range(2..5) };
+        let kind = b % 11; // 8, 9, 10 = copies of one proof with the final scalar shifted by a finite-difference pattern (cancels under weights that are polynomial in the position); 7 = the same proof verified against two statements whose constants deviate by +d / -d; 0 honest mix, 1 one invalid, 2 +d/-d pair, 3 empty, 4 single, 5 pair + honest around, 6 shape error inside
+        let k = match kind { 3 => 0, 4 => 1, 2 | 7 => 2, 8 => 3, 9 => 4, 10 => 5, _ => rng.gen_range(2..5) };
         let mut cases: Vec<R1csCase<G>> = vec![];
         let bad_pos = if k > 0 { rng.gen_range(0..k) } else { 0 };
         let mut i = 0;
@@ -60,6 +60,26 @@ pub fn gen_and_run<G: AffineRepr>(curve: &str, ci: u64, modulus: &str, seed: u64
                 cases.push(c);
                 cases.push(c2);
                 i += 2;
+                continue;
+            }
+            if (8..=10).contains(&kind) && i == 0 {
+                let pattern: Vec<i64> = match kind { 8 => vec![1, -2, 1], 9 => vec![1, -3, 3, -1], _ => vec![1, 0, -2, 0, 1] };
+                for (j, co) in pattern.iter().enumerate() {
+                    if *co == 0 {
+                        // an honest member of another shape in between
+                        let g2 = gen_program::<F<G>>(&mut rng, &sh);
+                        let mut ch = R1csCase::plain(format!("b_{}_{}_{}", ci, b, j), g2.prog.clone(), cap, cap, rng.gen());
+                        ch.label = BATCH_LABELS[j]; ch.vlabel = BATCH_LABELS[j]; ch.tag = c.tag.clone();
+                        cases.push(ch);
+                        continue;
+                    }
+                    let mut cj = R1csCase::plain(format!("b_{}_{}_{}", ci, b, j), g.prog.clone(), cap, cap, c.ext_seed);
+                    cj.label = c.label; cj.vlabel = c.vlabel; cj.tag = c.tag.clone();
+                    let coef = if *co >= 0 { F::<G>::from(*co as u64) } else { -F::<G>::from((-*co) as u64) };
+                    cj.muts = vec![Mutation::ScalarAdd(3, d * coef)];
+                    cases.push(cj);
+                }
+                i = k;
                 continue;
             }
             if kind == 7 && i == 0 {
